@@ -288,7 +288,7 @@ func (e *Engine) queryUsedNonce(tx *Tx, k nonceKey) {
 	found := err == nil
 	e.Rc.Cov.Assert("query.UsedNonce")
 	if found != e.M.Used[k] {
-		e.viol([]string{"C02", "C19"}, "query-tap/used-nonce", "query:UsedNonce:"+map[bool]string{true: "spurious", false: "missing"}[found],
+		e.viol([]string{"C02", "C19", "C14"}, "query-tap/used-nonce", "query:UsedNonce:"+map[bool]string{true: "spurious", false: "missing"}[found],
 			fmt.Sprintf("UsedNonce(%d,%d) found=%v, model used=%v (err=%v)", k.Domain, k.Nonce, found, e.M.Used[k], err), e.caseOf(tx, ""))
 	} else if found && (r.Nonce.SourceDomain != k.Domain || r.Nonce.Nonce != k.Nonce) {
 		e.viol([]string{"C19"}, "query-tap/used-nonce", "query:UsedNonce:echo", fmt.Sprintf("UsedNonce(%d,%d) returned %+v", k.Domain, k.Nonce, r.Nonce), e.caseOf(tx, ""))
